@@ -691,11 +691,14 @@ func (l *evlog) lastTime() time.Time {
 var osEnvLen = len(os.Environ())
 
 func effEnvOf(env []string) []string {
-	// getProcessEnvironment: PC_PROC_NAME, PC_REPLICA_NUM, os.Environ()..., project env..., process env...
-	if len(env) < 2+osEnvLen {
-		return append([]string{"<short>"}, env...)
+	// getProcessEnvironment (since 3b6f47b): os.Environ()..., project env..., process env...,
+	// PC_PROC_NAME, PC_REPLICA_NUM.  What is compared is the part between the inherited environment and
+	// the two injected variables; anything else is reported as it is (and will not match).
+	n := len(env)
+	if n < 2+osEnvLen || !strings.HasPrefix(env[n-2], "PC_PROC_NAME=") || !strings.HasPrefix(env[n-1], "PC_REPLICA_NUM=") {
+		return append([]string{"<unexpected layout>"}, env...)
 	}
-	return append([]string{}, env[2+osEnvLen:]...)
+	return append([]string{}, env[osEnvLen:n-2]...)
 }
 
 func nonDeferred(p *types.Project) []string {
@@ -1044,12 +1047,7 @@ func genDirected() []*RunCase {
 		mk("directed:nothing:"+mode, mode, Knobs{"vars": 1, "ext": 1, "environment": 3}, Knobs{"vars": 1, "ext": 1, "environment": 3}) // F27 over REST
 		mk("directed:disable:"+mode, mode, Knobs{}, Knobs{"disabled": 1})
 		mk("directed:enable:"+mode, mode, Knobs{"disabled": 1}, Knobs{})
-		if mode != "reload" {
-			// with replicas > 1 two loads of the same file differ (the loader's cloneReplicas shares
-			// the vars map between replicas: finding F4), so the harness cannot know what
-			// ReloadProject loaded; replicas are exercised on the paths that hand over the project
-			mk("directed:replicas:"+mode, mode, Knobs{"replicas": 1}, Knobs{"replicas": 2})
-		}
+		mk("directed:replicas:"+mode, mode, Knobs{"replicas": 1}, Knobs{"replicas": 2})
 	}
 	mk("directed:cosmetic:description", "direct", Knobs{"description": 1}, Knobs{"description": 2})
 	mk("directed:cosmetic:namespace", "direct", Knobs{}, Knobs{"namespace": 1})
@@ -1121,19 +1119,6 @@ func genRandomRun(r *rand.Rand) *RunCase {
 		mode := []string{"direct", "direct", "reload", "rest", "restreload"}[r.Intn(5)]
 		c.Steps = append(c.Steps, StepIn{Mode: mode, Spec: copySpec(&next)})
 		spec = next
-	}
-	reloads := false
-	for _, st := range c.Steps {
-		if st.Mode == "reload" || st.Mode == "restreload" {
-			reloads = true
-		}
-	}
-	if reloads { // see genDirected: replicas only where the project object is handed over
-		for _, st := range c.Steps {
-			for _, k := range st.Spec.Procs {
-				delete(k, "replicas")
-			}
-		}
 	}
 	return withTeardown(c)
 }
